@@ -240,8 +240,9 @@ def unfoldBool (isAnd : Bool) : List BExp → BExp
   | [x] => x
   | x :: xs => if isAnd then .and [x, unfoldBool isAnd xs] else .or [x, unfoldBool isAnd xs]
 
-/-- tuple comparison loop of `translate_expression` (flat values indexed by position) -/
-def tupleCmpLoop (neq : Bool) (l r : List Val) : List Ty → Nat → BExp → Except String BExp
+/-- tuple comparison loop of `translate_expression` (flat values indexed by position): the conjunction of
+the bitwise equalities (since 6b91624 for `!=` too, which negates the result) -/
+def tupleCmpLoop (l r : List Val) : List Ty → Nat → BExp → Except String BExp
   | [], _, c => pure c
   | t :: ts, idx, c => do
     let n ← match t with
@@ -250,9 +251,9 @@ def tupleCmpLoop (neq : Bool) (l r : List Val) : List Ty → Nat → BExp → Ex
     let mut c := c
     for k in [0:n] do
       match l[idx + k]?, r[idx + k]? with
-      | some (.atom a), some (.atom b) => c := .and [c, if neq then bNeq a b else bEq a b]
+      | some (.atom a), some (.atom b) => c := .and [c, bEq a b]
       | _, _ => throw "tuple comparison on nested values"
-    tupleCmpLoop neq l r ts (idx + n) c
+    tupleCmpLoop l r ts (idx + n) c
 
 mutual
 /-- `translate_expression` -/
@@ -279,7 +280,10 @@ def tr (q : Quirks) (env : Env) : PExp → M (Ty × Val)
       let sn := pathName n path
       match t.size? with
       | some w => pure (t, .list ((List.range w).map fun i => .atom (.sym s!"{sn}.{i}")))
-      | none => pure (t, .atom (.sym sn))
+      | none =>
+        match t with
+        | .tuple _ => pure (t, .list ((t.names sn).map fun s => .atom (.sym s)))   -- `_leaf_symbols` (6b971e4)
+        | _ => pure (t, .atom (.sym sn))
   | .boolop isAnd vs => do
     let xs ← trList q env vs
     let mut es : List BExp := []
@@ -349,8 +353,8 @@ def tr (q : Quirks) (env : Env) : PExp → M (Ty × Val)
         | _ => throw "OperationNotSupported"
       match lv, rv with
       | .list a, .list b => do
-        let c ← (tupleCmpLoop neq a b ls 0 .tt : Except String _)
-        pure (.bool, .atom c)
+        let c ← (tupleCmpLoop a b ls 0 .tt : Except String _)
+        pure (.bool, .atom (if neq then .not c else c))   -- `a != b` is `not (a == b)`
       | _, _ => throw "TypeError: subscript of an expression"
     | _, _ =>
       match lt.size?, rt.size? with
